@@ -9,8 +9,14 @@ try:
 except Exception:
     allhist = {}
 needs = json.load(open('/verif/seed_needs.json'))
+latest = {}
 for l in open('/verif/work/seedres_%s.jsonl' % prop):
+    l = l.strip()
+    if not l.startswith('{'):
+        continue
     r = json.loads(l)
+    latest[r['dir']] = r   # the last run of a seed counts
+for r in latest.values():
     i = r['dir'].rstrip('/').split('/')[-1]
     sid = "%s-%s" % (prop, i)
     ok = r['applies'] == 'yes' and r['builds'] == 'yes' and r['demo_without_patch'] == 'pass' and r['demo_with_patch'] == 'fail' and r['suite_root'] == 'pass' and r['suite_tests'] == 'pass'
